@@ -85,6 +85,8 @@ type worldC struct {
 	kci int64
 	eon int64
 	tasks int // running harness task goroutines
+	// provision, if set, replaces the default eon provisioning of addNode
+	provision func(nd *cNode)
 }
 
 func sqlKey(req *pgsim.Request) string {
@@ -158,7 +160,11 @@ func (w *worldC) addNode(name string, idx int, state dkgState, extra func(nd *cN
 	if err := db.InitDB(nd.ctx, nd.pool, database.Definition.Name()+"-sim", database.Definition); err != nil {
 		r.InfraFail("InitDB: %v", err)
 	}
-	w.provisionEon(nd, state)
+	if w.provision != nil {
+		w.provision(nd)
+	} else {
+		w.provisionEon(nd, state)
+	}
 	nd.msg = p2p.VerifNewMessaging()
 	nd.msg.AddMessageHandler(
 		epochkghandler.NewDecryptionKeyHandler(nd.cfg, nd.pool),
@@ -182,31 +188,44 @@ func (w *worldC) addNode(name string, idx int, state dkgState, extra func(nd *cN
 }
 
 func (w *worldC) provisionEon(nd *cNode, state dkgState) {
+	w.provisionConfig(nd, w.kci, w.eon, state, nd.idx >= 0, w.keys)
+}
+
+// provisionConfig inserts one keyper set (batch config), its eon(s) and DKG
+// result(s) into the node's database.
+func (w *worldC) provisionConfig(nd *cNode, kci, eon int64, state dkgState, member bool, ek *testkeygen.EonKeys) {
 	r := w.r
 	ctx := nd.ctx
 	q := database.New(nd.pool)
 	var keypers []string
-	for _, a := range w.addrs {
+	for i, a := range w.addrs {
+		if !member && i == nd.idx {
+			a = simtm.DetKey(fmt.Sprintf("replacement-%d", i)).Addr
+		}
 		keypers = append(keypers, shdb.EncodeAddress(a))
 	}
 	if err := q.InsertBatchConfig(ctx, database.InsertBatchConfigParams{
-		KeyperConfigIndex: int32(w.kci), Height: 0, Keypers: keypers, Threshold: int32(w.t), Started: true, ActivationBlockNumber: 0,
+		KeyperConfigIndex: int32(kci), Height: 0, Keypers: keypers, Threshold: int32(w.t), Started: true, ActivationBlockNumber: 0,
 	}); err != nil {
 		r.InfraFail("InsertBatchConfig: %v", err)
 	}
-	if err := q.InsertEon(ctx, database.InsertEonParams{Eon: w.eon, Height: 0, ActivationBlockNumber: 0, KeyperConfigIndex: w.kci}); err != nil {
+	if err := q.InsertEon(ctx, database.InsertEonParams{Eon: eon, Height: 0, ActivationBlockNumber: 0, KeyperConfigIndex: kci}); err != nil {
 		r.InfraFail("InsertEon: %v", err)
 	}
 	insertResult := func(eon int64, success bool) {
 		var enc []byte
-		if success && nd.idx >= 0 {
+		if success {
 			var pks []*shcrypto.EonPublicKeyShare
 			for i := 0; i < w.n; i++ {
-				pks = append(pks, w.keys.EonPublicKeyShare(i))
+				pks = append(pks, ek.EonPublicKeyShare(i))
+			}
+			idx := nd.idx
+			if idx < 0 {
+				idx = 0
 			}
 			res := puredkg.Result{
-				Eon: uint64(eon), NumKeypers: uint64(w.n), Threshold: uint64(w.t), Keyper: uint64(nd.idx),
-				SecretKeyShare: w.keys.EonSecretKeyShare(nd.idx), PublicKey: w.keys.EonPublicKey(), PublicKeyShares: pks,
+				Eon: uint64(eon), NumKeypers: uint64(w.n), Threshold: uint64(w.t), Keyper: uint64(idx),
+				SecretKeyShare: ek.EonSecretKeyShare(idx), PublicKey: ek.EonPublicKey(), PublicKeyShares: pks,
 			}
 			var err error
 			enc, err = shdb.EncodePureDKGResult(&res)
@@ -224,13 +243,13 @@ func (w *worldC) provisionEon(nd *cNode, state dkgState) {
 	}
 	switch state {
 	case dkgSuccess:
-		insertResult(w.eon, true)
+		insertResult(eon, true)
 	case dkgNone:
 	case dkgFailed:
-		insertResult(w.eon, false)
+		insertResult(eon, false)
 	case dkgRestartedNewer:
-		insertResult(w.eon, true)
-		if err := q.InsertEon(ctx, database.InsertEonParams{Eon: w.eon + 1, Height: 5, ActivationBlockNumber: 0, KeyperConfigIndex: w.kci}); err != nil {
+		insertResult(eon, true)
+		if err := q.InsertEon(ctx, database.InsertEonParams{Eon: eon + 1, Height: 5, ActivationBlockNumber: 0, KeyperConfigIndex: kci}); err != nil {
 			r.InfraFail("InsertEon: %v", err)
 		}
 	}
